@@ -112,9 +112,11 @@ CHECKS["C20"] = dict(
          "(disabled, hit, empty answer, error) through GetIPInfoFromAddr/IP with a recording fake database; oracle by class alone from independent prefix tables. "
          "(Expo) generated traffic histories fed to the real collector in a pedantic registry from two client addresses of one class: no series name/label contains any textual form of the client IP or its ports, "
          "one location label per client across all families, and the two runs yield identical series and non-timing values. "
-         "Non-trivial = non-plain address form, non-global or mapped address, or non-hit database (Class); history with >=2 operations (Expo).",
+         "(Multi) 2..5 clients (several global IPv6, IPv4, mapped, local) interleaved in one history against a database that answers by address: per location label the gathered counts must equal the model counts, "
+         "so a label can depend on nothing but the client's own address. Non-trivial = non-plain address form, non-global or mapped address, or non-hit database (Class); history with >=2 operations (Expo); "
+         ">=2 global IPv6 clients or >=3 label groups (Multi).",
     assumptions=["'non-global' = loopback/unspecified/multicast/link-local/broadcast (the code's and existing tests' meaning; RFC1918 is looked up)", "zoned addresses may be XA or XL"],
-    units=[unit("props", ["Class", "Expo"], "C20")],
+    units=[unit("props", ["Class", "Expo", "Multi"], "C20")],
 )
 
 CHECKS["C17"] = dict(
